@@ -236,7 +236,7 @@ def encode_message_set(entries):
 
 
 def encode_wrapper(inner_entries, wrapper_offset, magic=0, codec=CODEC_GZIP, timestamp=None, key=None,
-                   extra_attributes=0):
+                   extra_attributes=0, members=1, split_at=None):
     """A compressed wrapper message-set entry.
 
     inner_entries: list of (inner_offset, encoded_message) -- the caller decides
@@ -244,7 +244,13 @@ def encode_wrapper(inner_entries, wrapper_offset, magic=0, codec=CODEC_GZIP, tim
     Returns (wrapper_offset, encoded wrapper message).
     """
     inner = encode_message_set(inner_entries)
-    if codec == CODEC_GZIP:
+    if codec == CODEC_GZIP and members > 1:
+        # the same bytes as several concatenated gzip members (RFC 1952 2.2; what a compressor that is flushed
+        # and restarted writes, and what java.util.zip.GZIPInputStream reads back as one stream)
+        cuts = sorted(split_at or [len(inner) * i // members for i in range(1, members)])
+        pieces = [inner[a:b] for a, b in zip([0] + cuts, cuts + [len(inner)])]
+        payload = b"".join(gzip_compress(p) for p in pieces if p or len(pieces) == 1)
+    elif codec == CODEC_GZIP:
         payload = gzip_compress(inner)
     else:
         raise ValueError("codec %r not available in refproto" % codec)
